@@ -420,4 +420,18 @@ def inversion_block_order(mask, sub, adapt, data, noise, objects, use_w_tilde):
     wr = want[np.ix_(keep, keep)]
     if Hr.shape != wr.shape or np.max(np.abs(Hr - wr)) > tol:
         return "regularization_matrix_reduced is not the matrix with the unregularized objects' rows/columns removed"
+    # the same statement whatever was asked of the inversion before: F + H (and a solve) first, the matrices afterwards
+    inv2 = aa.Inversion(dataset=im, linear_obj_list=objs,
+                        settings=aa.SettingsInversion(use_w_tilde=use_w_tilde, use_positive_only_solver=False))
+    _ = np.array(inv2.curvature_reg_matrix)
+    try:
+        _ = inv2.reconstruction
+    except aa.exc.InversionException:
+        pass
+    for label, v, w in (("regularization_matrix", inv2.regularization_matrix, want), ("regularization_matrix_reduced", inv2.regularization_matrix_reduced, wr),
+                        ("regularization_matrix (first inversion, read again)", inv.regularization_matrix, want)):
+        v = np.array(v, dtype=float)
+        if v.shape != w.shape or np.max(np.abs(v - w)) > tol:
+            return "%s read AFTER curvature_reg_matrix / reconstruction is no longer the block-diagonal matrix of the objects' schemes (max diff %.3g)" % (
+                label, float(np.max(np.abs(v - w))) if v.shape == w.shape else float("nan"))
     return None
